@@ -37,6 +37,7 @@ def coder_common(ctx):
     walk.r_deg(ctx, ['encode', 'decode'])
     walk.r_sel(ctx)
     walk.r_endian(ctx)
+    walk.r_msg(ctx)
 
 
 def c01(ctx):
@@ -137,6 +138,7 @@ def c04(ctx):
     graph2.r_cascade(ctx)
     graph2.r_fix(ctx)
     walk.r_loop_test(ctx)
+    walk.r_msg(ctx)
     ctx.run.notes.append('termination on out-degree-1 chains depends on the generated graph (C03) and is not decided')
 
 
@@ -148,9 +150,11 @@ def c08(ctx):
     repair.r_tile(ctx)
     repair.r_cand(ctx)
     repair.r_sites(ctx)
+    repair.r_recomb(ctx)
 
 
 def c09(ctx):
+    repair.r_recomb(ctx)
     purity.r_state_closure(ctx, SW + 'repair_dna')
     repair.r_ret(ctx)
     live.r_live(ctx, [SW + 'repair_dna'], floor=1)
@@ -213,6 +217,7 @@ def c18(ctx):
 
 
 def c19(ctx):
+    misc2.r_max(ctx)
     graph2.r_bfs(ctx)            # the scores are unions of breadth-first leaf sets
     purity.r_state_closure(ctx, SW + 'remove_nasty_arc')
     misc2.r_pair(ctx)
